@@ -29,8 +29,9 @@ Theorem c07_seamless_cursor : C07_seamless_cursor.
 Proof. exact c07_seamless_cursor_proof. Qed.
 Print Assumptions c07_seamless_cursor.
 
-(* target-cursor mode, cursor block on canon; partial: the hub's chain contains the merged blocks in its range
-   (files_on_hub) and a stored cursor block is on the hub's chain (target_on_chain) *)
+(* target-cursor mode, cursor block on canon; partial: a stored cursor block is on the hub's chain (target_on_chain).
+   files_on_hub is no longer needed (fix "target join on identity"; before it: c07_target_join_by_number_refuted in
+   Properties/C07_More.v) *)
 Theorem c07_seamless_target_partial : C07_seamless_target.
 Proof. exact c07_seamless_target_proof. Qed.
 Print Assumptions c07_seamless_target_partial.
@@ -198,7 +199,7 @@ Definition cx_c4 : jcfg := mkJ 2 0 10 2 5 (Some cx_cu4) 0 0 0.
 
 Example c07_compose_nonvacuous_target :
   hub_of_universe cx_U cx_c4 cx_w /\ eventual_tip cx_c4 cx_w cx_canon /\
-  files_on_hub cx_c4 cx_w cx_merged /\ target_on_chain cx_c4 cx_w cx_cu4 /\
+  target_on_chain cx_c4 cx_w cx_cu4 /\
   j_mode cx_c4 = 2 /\ j_cursor cx_c4 = Some cx_cu4 /\ j_filter cx_c4 = 0 /\ j_stop cx_c4 = 0 /\ 0 < j_bundle cx_c4 /\
   In (cx_b 14) cx_canon /\ bref (cx_b 14) = cu_blk cx_cu4 /\
   (exists b, In b cx_canon /\ bnum b = run_start cx_c4 cx_w) /\
@@ -210,7 +211,6 @@ Proof.
   destruct c07_compose_nonvacuous_hyps as (_ & _ & Hhub & _ & _ & _ & _ & _).
   split; [exact Hhub|].
   split; [apply eventual_tip_b_sound; vm_compute; reflexivity|].
-  split; [apply files_on_hub_b_sound; vm_compute; reflexivity|].
   split; [apply target_on_chain_b_sound; vm_compute; reflexivity|].
   split; [reflexivity|]. split; [reflexivity|]. split; [reflexivity|]. split; [reflexivity|]. split; [reflexivity|].
   split; [vm_compute; tauto|]. split; [reflexivity|].
